@@ -263,6 +263,139 @@ pub fn items(tier: Tier) -> Vec<DxItem> {
     all_params(tier).into_iter().map(|(p, b)| DxItem::new(params_json(&p), make(p), b)).collect()
 }
 
+/// Client level (real time): the interval/timeout a user configures (pool check interval / idle timeout, which
+/// client.rs hands to the session's liveness monitor) are the ones the monitor of a session created by the real
+/// `Client` runs with. A scripted TLS server records the arrival times of keep-alive requests, answers them
+/// until `silent_after_ms` and is silent afterwards.
+async fn client_level_case(interval_s: u64, timeout_s: u64, silent_after_ms: u64) -> Result<serde_json::Value, String> {
+    use tokio::io::{AsyncReadExt, AsyncWriteExt};
+    let tls = anytls_rs::util::tls::create_server_config().map_err(|e| e.to_string())?;
+    let acceptor = tokio_rustls::TlsAcceptor::from(tls);
+    let l = tokio::net::TcpListener::bind("127.0.0.1:0").await.map_err(|e| e.to_string())?;
+    let addr = l.local_addr().unwrap();
+    let reqs: Arc<Mutex<Vec<u64>>> = Arc::new(Mutex::new(vec![]));
+    let last_answer: Arc<Mutex<Option<u64>>> = Arc::new(Mutex::new(None));
+    let t0 = std::time::Instant::now();
+    let (rq, la) = (reqs.clone(), last_answer.clone());
+    let srv = tokio::spawn(async move {
+        let Ok((tcp, _)) = l.accept().await else { return };
+        let Ok(mut s) = acceptor.accept(tcp).await else { return };
+        let mut pre = [0u8; 34];
+        if s.read_exact(&mut pre).await.is_err() {
+            return;
+        }
+        let pad = u16::from_be_bytes([pre[32], pre[33]]) as usize;
+        let mut skip = vec![0u8; pad];
+        if s.read_exact(&mut skip).await.is_err() {
+            return;
+        }
+        let mut buf: Vec<u8> = vec![];
+        let mut tmp = [0u8; 4096];
+        loop {
+            let Ok(n) = s.read(&mut tmp).await else { return };
+            if n == 0 {
+                return;
+            }
+            buf.extend_from_slice(&tmp[..n]);
+            let (frames, left) = parse_all(&buf);
+            let consumed = buf.len() - left;
+            buf.drain(..consumed);
+            for f in frames {
+                match f.cmd {
+                    SETTINGS => {
+                        let _ = s.write_all(&enc(SERVER_SETTINGS, 0, b"v=2")).await;
+                    }
+                    PSH => {
+                        let _ = s.write_all(&enc(SYNACK, f.id, b"")).await;
+                    }
+                    HEART_REQ => {
+                        let now = t0.elapsed().as_millis() as u64;
+                        rq.lock().unwrap().push(now);
+                        if now < silent_after_ms {
+                            let _ = s.write_all(&enc(HEART_RESP, f.id, b"")).await;
+                            *la.lock().unwrap() = Some(now);
+                        }
+                    }
+                    _ => {}
+                }
+                let _ = s.flush().await;
+            }
+        }
+    });
+    let client = crate::lx::make_client("pw", addr, anytls_rs::padding::PaddingFactory::default(), crate::lx::pool_cfg(interval_s, timeout_s, 1));
+    let (st, sess) = tokio::time::timeout(Duration::from_secs(8), client.create_proxy_stream(("example.test".to_string(), 80))).await.map_err(|_| "request timed out".to_string())?.map_err(|e| e.to_string())?;
+    let horizon_ms = silent_after_ms + (timeout_s + 2 * interval_s) * 1000 + 1500;
+    let mut closed_at: Option<u64> = None;
+    while (t0.elapsed().as_millis() as u64) < horizon_ms {
+        if sess.is_closed() {
+            closed_at = Some(t0.elapsed().as_millis() as u64);
+            break;
+        }
+        tokio::time::sleep(Duration::from_millis(20)).await;
+    }
+    drop(st);
+    let _ = sess.close().await;
+    client.stop_session_pool_cleanup().await;
+    srv.abort();
+    let r = reqs.lock().unwrap().clone();
+    Ok(json!({"requests_ms": r, "last_answer_ms": *last_answer.lock().unwrap(), "closed_at_ms": closed_at, "horizon_ms": horizon_ms}))
+}
+
+fn client_level(rep: &mut Report, thorough: bool) {
+    let cfgs: Vec<(u64, u64, u64)> = if thorough { vec![(1, 3, 2500), (2, 1, 4500), (1, 1, 2500), (3, 1, 3500)] } else { vec![(1, 3, 2500), (2, 1, 4500)] };
+    let rt = crate::semi::rt_multi();
+    let results: Vec<((u64, u64, u64), Result<serde_json::Value, String>)> = rt.block_on(async {
+        let mut hs = vec![];
+        for c in cfgs {
+            hs.push((c, tokio::spawn(client_level_case(c.0, c.1, c.2))));
+        }
+        let mut out = vec![];
+        for (c, h) in hs {
+            out.push((c, h.await.unwrap_or_else(|e| Err(e.to_string()))));
+        }
+        out
+    });
+    drop(rt);
+    for ((i, t, silent), r) in results {
+        let name = format!("client level: check interval {i} s, idle timeout {t} s, server silent after {silent} ms");
+        rep.case(Some(&name));
+        let replay = json!({"engine": "LX", "interval_s": i, "timeout_s": t, "silent_after_ms": silent});
+        let v = match r {
+            Ok(v) => v,
+            Err(e) => {
+                rep.machinery(format!("{name}: {e}"));
+                continue;
+            }
+        };
+        rep.sample(json!({"case": name, "observed": v}));
+        let reqs: Vec<u64> = v["requests_ms"].as_array().map(|a| a.iter().filter_map(|x| x.as_u64()).collect()).unwrap_or_default();
+        // spacing of the keep-alive requests = the configured interval (generous tolerance: a loaded machine delays, it does not halve)
+        let gaps: Vec<u64> = reqs.windows(2).map(|w| w[1] - w[0]).collect();
+        let want = i * 1000;
+        // judged on the mean gap: a loaded machine shifts single arrivals, it does not change the period
+        let mean = if gaps.is_empty() { 0 } else { (reqs[reqs.len() - 1] - reqs[0]) / gaps.len() as u64 };
+        if gaps.is_empty() || mean + 400 < want || mean > want + 800 {
+            rep.violation("C14:monitor-does-not-run-with-the-configured-interval", &format!("{name}: keep-alive requests reached the server at {:?} ms (gaps {:?}); the configured interval is {want} ms", reqs, gaps), replay.clone());
+            continue;
+        }
+        let Some(la) = v["last_answer_ms"].as_u64() else {
+            rep.violation("C14:monitor-does-not-run-with-the-configured-interval", &format!("{name}: no keep-alive request was answered: {v}"), replay.clone());
+            continue;
+        };
+        match v["closed_at_ms"].as_u64() {
+            None => rep.violation(&format!("C14:dead-session-never-closed:{}", if t < i { "T<I" } else if t == i { "T=I" } else { "T>I" }), &format!("{name}: session created by the real Client still open at {} ms, last answer at {la} ms", v["horizon_ms"]), replay),
+            Some(c) => {
+                // closed no earlier than one timeout after the last answered request (minus tolerance) and within timeout + interval
+                if c + 600 < la + t * 1000 {
+                    rep.violation("C14:monitor-does-not-run-with-the-configured-timeout", &format!("{name}: closed at {c} ms, only {} ms after the last answer (at {la} ms); the configured timeout is {} ms", c - la.min(c), t * 1000), replay);
+                } else if c > la + (t + i) * 1000 + 2500 {
+                    rep.violation("C14:monitor-does-not-run-with-the-configured-timeout", &format!("{name}: closed at {c} ms, {} ms after the last answer (at {la} ms); timeout + interval is {} ms", c - la, (t + i) * 1000), replay);
+                }
+            }
+        }
+    }
+}
+
 pub fn run(tier: Tier) -> i32 {
     let mut rep = Report::new("C14", tier, "model_checking");
     rep.assumptions = vec![
@@ -272,7 +405,8 @@ pub fn run(tier: Tier) -> i32 {
     ];
     let cap = Duration::from_secs(if tier.is_thorough() { 1200 } else { 60 });
     run_items(&mut rep, "C14", tier, items(tier), DxOpts { time_cap: cap, det_replays: 1, max_violations: 2, vacuity_check: false });
-    rep.finish("grid: interval x timeout (incl. T<I, T=I) x round trip {0, 2 ms, T/2, T-2 ms} x silence instant {never, from start, before/after response k=1..3} x {idle, stream traffic every I/3} on a real client session under virtual time, is_closed sampled every 50 ms up to 20*max(I,T); DX (<=1 deviation) on the small configurations; non-trivial = distinct trace with >= 1 deviation")
+    client_level(&mut rep, tier.is_thorough());
+    rep.finish("grid: interval x timeout (incl. T<I, T=I) x round trip {0, 2 ms, T/2, T-2 ms} x silence instant {never, from start, before/after response k=1..3} x {idle, stream traffic every I/3} on a real client session under virtual time, is_closed sampled every 50 ms up to 20*max(I,T); DX (<=1 deviation) on the small configurations; client level (real time): sessions created by the real Client with 2 (4) interval/timeout pairs against a scripted TLS server that falls silent — request spacing = interval, close between timeout and timeout + interval after the last answer; non-trivial = distinct trace with >= 1 deviation")
 }
 
 pub fn replay(file: &str) -> i32 {
